@@ -264,6 +264,7 @@ def check_history(env, rec, rows):
     first = {}
     for j, t in enumerate(onsets):
         first.setdefault(t, j)
+    idx_of = {t: k for k, t in enumerate(times)}
     for k, t in enumerate(times):
         j = first[t]
         rec.n("transitions")
@@ -283,6 +284,22 @@ def check_history(env, rec, rows):
             return
         if got_rem != want_rem:
             rec.violation(f"C20:remainder-differs:{kinds(rows)}", time=t, expected=rem[k], got=str(em.hed_strings[j]), **where)
+            return
+    # the other entries of a time point (rows sharing its onset): nothing is listed or left there, and what they show as
+    # context is the context of the time point - in particular never a process that starts at this very time point
+    for j, t in enumerate(onsets):
+        k = idx_of[t]
+        if j == first[t]:
+            continue
+        rec.n("transitions")
+        want_ctx = sorted(x for b in ctx[k] for x in multiset(b))
+        if multiset(em.contexts[j]) != want_ctx:
+            rec.violation(f"C20:context-differs:shared-onset-entry:{kinds(rows)}", time=t, entry=j, expected=ctx[k],
+                          got=em.contexts[j], **where)
+            return
+        if multiset(em.base[j]) or multiset(str(em.hed_strings[j])):
+            rec.violation(f"C20:shared-onset-entry-not-empty:{kinds(rows)}", time=t, entry=j, base=em.base[j],
+                          remainder=str(em.hed_strings[j]), **where)
             return
     # event_list: every process listed at its start entry with the right end
     try:
